@@ -7,6 +7,7 @@ package main
 import (
 	"fmt"
 	"math/rand"
+	"regexp"
 	"strings"
 )
 
@@ -27,6 +28,7 @@ const (
 	kClean    // xv = "c"
 	kNop
 	kNorm // xv, _ = norm(xw): the data goes THROUGH a validator (which returns its argument and a verdict)
+	kSanitizeOther // xv = sanitize§(xw): the sanitizer of the OTHER taint problem (no effect on this problem's data)
 )
 
 // condition kinds (on variable V unless opaque)
@@ -59,11 +61,15 @@ const (
 	cIface          // vi.Validate(x) through an interface (invoke mode)
 	cNormErrNe      // _, e := norm(x); e != nil
 	cNormErrEq      // _, e := norm(x); e == nil
+	cOtherVal       // validate§(x): a validator of the OTHER taint problem
+	cOtherNotVal    // !validate§(x)
+	cOtherErrNe     // check§(x) != nil
+	cOtherErrEq     // check§(x) == nil
 	nCondKinds
 )
 
 // kinds usable in a `for` header (no pre-statement)
-var forConds = []int{cOpaque, cVal, cNotVal, cErrEqInline, cErrNeInline, cValAndOpaque, cOpaqueOrVal, cOther, cVal2, cOpaque, cOpaque}
+var forConds = []int{cOpaque, cVal, cNotVal, cErrEqInline, cErrNeInline, cValAndOpaque, cOpaqueOrVal, cOther, cVal2, cOtherVal, cOpaque, cOpaque}
 
 type cond struct {
 	Kind int
@@ -131,8 +137,10 @@ func (g *caseGen) leaf(inLoop bool) cstmt {
 			return cstmt{Kind: kSource, V: g.r.Intn(nVars), Site: g.site()}
 		case p < 92:
 			return cstmt{Kind: kClean, V: g.r.Intn(nVars)}
-		case p < 96:
+		case p < 95:
 			return cstmt{Kind: kNorm, V: g.r.Intn(nVars), W: g.r.Intn(nVars)}
+		case p < 98:
+			return cstmt{Kind: kSanitizeOther, V: g.r.Intn(nVars), W: g.r.Intn(nVars)}
 		default:
 			return cstmt{Kind: kNop}
 		}
@@ -272,6 +280,14 @@ func (r *crender) condExpr(c cond) (string, string) {
 	case cNormErrEq:
 		e := r.fresh("e")
 		return "_, " + e + " := norm(" + x + ")", e + " == nil"
+	case cOtherVal:
+		return "", "validate§(" + x + ")"
+	case cOtherNotVal:
+		return "", "!validate§(" + x + ")"
+	case cOtherErrNe:
+		return "", "check§(" + x + ") != nil"
+	case cOtherErrEq:
+		return "", "check§(" + x + ") == nil"
 	}
 	panic("cond kind")
 }
@@ -331,6 +347,8 @@ func (r *crender) body(b []cstmt, ind int) {
 			fmt.Fprintf(&r.sb, "%snop()\n", tab)
 		case kNorm:
 			fmt.Fprintf(&r.sb, "%sx%d, _ = norm(x%d)\n", tab, s.V, s.W)
+		case kSanitizeOther:
+			fmt.Fprintf(&r.sb, "%sx%d = sanitize§(x%d)\n", tab, s.V, s.W)
 		}
 	}
 }
@@ -364,7 +382,7 @@ func renderCase(name string, site0, site2 int, body []cstmt, helper bool) string
 
 // prelude: the instrumented support code. Decisions come from `bits`; the run records, for every
 // sink call, the markers of its argument that no validator accepted.
-const nativeSupport = `//go:build native
+const nativeCommon = `//go:build native
 
 package main
 
@@ -443,6 +461,19 @@ func itoa(k int) string {
 	return s
 }
 
+type errT struct{}
+
+func (errT) Error() string { return "bad" }
+
+//go:noinline
+func other(s string) bool { return c() }
+
+`
+
+// nativeProblem: the support functions of taint problem A; problem B is derived from it by renaming
+// (suffix B) and by using [site.serial] markers instead of <site.serial>, so that the functions of one
+// problem neither see nor touch the data of the other.
+const nativeProblem = `
 // source returns a string that carries a fresh marker <site.serial>.
 //
 //go:noinline
@@ -494,12 +525,26 @@ func sink(site int, s string) {
 	}
 }
 
+// sanitize removes the markers of its own problem (and only those).
+//
 //go:noinline
-func sanitize(s string) string { return "clean" }
-
-type errT struct{}
-
-func (errT) Error() string { return "bad" }
+func sanitize(s string) string {
+	out := ""
+	for i := 0; i < len(s); i++ {
+		if s[i] == '<' {
+			j := i
+			for j < len(s) && s[j] != '>' {
+				j++
+			}
+			if j < len(s) {
+				i = j
+				continue
+			}
+		}
+		out += string(s[i])
+	}
+	return out + "c"
+}
 
 //go:noinline
 func validate(s string) bool {
@@ -538,9 +583,6 @@ func check4(s string) (error, bool) {
 	return e, validate(s)
 }
 
-//go:noinline
-func other(s string) bool { return c() }
-
 // norm: a validator that returns its argument together with the verdict.
 //
 //go:noinline
@@ -554,6 +596,9 @@ func (realValidator) Validate(s string) bool { return validate(s) }
 
 var vi validator = realValidator{}
 
+`
+
+const nativeTail = `
 // explore runs f under every decision stream (lazily: a stream is extended only where the run
 // asked for more decisions), up to maxBits decisions per run.
 func explore(id int, maxBits int, f func()) {
@@ -594,7 +639,7 @@ func explore(id int, maxBits int, f func()) {
 // stubSupport: what the analysis sees of the support functions (the bodies are irrelevant to the
 // property: sources, sinks, sanitizers and validators are identified by name; the case functions
 // are the same file in both builds).
-const stubSupport = `//go:build !native
+const stubCommon = `//go:build !native
 
 package main
 
@@ -624,6 +669,15 @@ func lim(s string) {}
 //go:noinline
 func use(a, b, d string) {}
 
+type errT struct{}
+
+func (errT) Error() string { return "bad" }
+
+//go:noinline
+func other(s string) bool { return c() }
+`
+
+const stubProblem = `
 //go:noinline
 func source(site int) string { return "s" }
 
@@ -631,11 +685,7 @@ func source(site int) string { return "s" }
 func sink(site int, s string) {}
 
 //go:noinline
-func sanitize(s string) string { return "clean" }
-
-type errT struct{}
-
-func (errT) Error() string { return "bad" }
+func sanitize(s string) string { return s + "c" }
 
 //go:noinline
 func validate(s string) bool { return c() }
@@ -661,9 +711,6 @@ func check3(s string) (string, bool) { return "i", c() }
 func check4(s string) (error, bool) { return check(s), c() }
 
 //go:noinline
-func other(s string) bool { return c() }
-
-//go:noinline
 func norm(s string) (string, error) { return s, check(s) }
 
 type validator interface{ Validate(s string) bool }
@@ -674,6 +721,32 @@ func (realValidator) Validate(s string) bool { return c() }
 
 var vi validator = realValidator{}
 `
+
+var problemIdentRe = regexp.MustCompile(`\b(source|markers|siteOf|accept|sink|sanitize|validate2|validate|check2|check3|check4|check|norm|validator|realValidator|Validate|vi)\b`)
+
+// forProblemB derives the support code of problem B from the code of problem A.
+func forProblemB(code string) string {
+	code = problemIdentRe.ReplaceAllString(code, "${1}B")
+	r := strings.NewReplacer("'<'", "'['", "'>'", "']'", `"<"`, `"["`, `">"`, `"]"`)
+	return r.Replace(code)
+}
+
+// nativeSupport / stubSupport: common part + problem A + problem B (+ the native explorer).
+func nativeSupport() string { return nativeCommon + nativeProblem + forProblemB(nativeProblem) + nativeTail }
+func stubSupport() string   { return stubCommon + stubProblem + forProblemB(stubProblem) }
+
+var caseCallRe = regexp.MustCompile(`\b(source|sink|sanitize|validate2|validate|check2|check3|check4|check|norm)\(`)
+
+// forProblem maps the text of a case function (written with the names of problem A, and with the
+// placeholder suffix § on calls to functions of the OTHER problem) to problem 0 (A) or 1 (B).
+func forProblem(text string, prob int) string {
+	if prob == 1 {
+		text = caseCallRe.ReplaceAllString(text, "${1}B(")
+		text = strings.ReplaceAll(text, "vi.Validate(", "viB.ValidateB(")
+		return strings.ReplaceAll(text, "§", "")
+	}
+	return strings.ReplaceAll(text, "§", "B")
+}
 
 // renderMains prints the two main functions: native (explore every case, print the flows) and stub
 // (call every case once, so that everything is reachable for the analysis).
